@@ -18,10 +18,10 @@ namespace Nebula.Props.C10
 open Nebula.HsManager Nebula.Lemmas.HsManager
 
 /-- what the candidate hostinfo built by beginHandshake looks like -/
-theorem prepareResponder_fields (cfg : Cfg) (p : PSide) (via : UNode) (pkt : Handle) (c : Completed) :
-    (p.prepareResponder cfg via pkt c).2.1.pkt0 = some pkt ∧
-    (p.prepareResponder cfg via pkt c).2.1.vpnAddrs = c.certAddrs ∧
-    (p.prepareResponder cfg via pkt c).2.1.hsTime = c.time := by
+theorem prepareResponder_fields (cfg : Cfg) (p : PSide) (via : UNode) (pkt : Handle) (c : Completed) (rv : Nat) :
+    (p.prepareResponder cfg via pkt c rv).2.1.pkt0 = some pkt ∧
+    (p.prepareResponder cfg via pkt c rv).2.1.vpnAddrs = c.certAddrs ∧
+    (p.prepareResponder cfg via pkt c rv).2.1.hsTime = c.time := by
   simp [PSide.prepareResponder]
 
 /-- Replay: if some tunnel `t` held for the certificate's first address was created from this very
@@ -44,9 +44,9 @@ theorem replay_no_new (n : Node) (via : UNode) (pkt : Handle) (c : Completed) (r
   dsimp only
   split
   · exact ⟨rfl, Or.inl rfl⟩
-  · have hf := prepareResponder_fields n.cfg n.p via pkt c
-    have hcac : checkAndComplete n.main (n.p.prepareResponder n.cfg via pkt c).1.pindexes
-        (n.p.prepareResponder n.cfg via pkt c).2.1 = some (.alreadySeen t) := by
+  · have hf := prepareResponder_fields n.cfg n.p via pkt c rv
+    have hcac : checkAndComplete n.main (n.p.prepareResponder n.cfg via pkt c rv).1.pindexes
+        (n.p.prepareResponder n.cfg via pkt c rv).2.1 = some (.alreadySeen t) := by
       unfold checkAndComplete
       simp only [hf.1, hf.2.1, hex, ht]
     rw [hcac]
@@ -68,9 +68,9 @@ theorem older_no_replace (n : Node) (via : UNode) (pkt : Handle) (c : Completed)
   dsimp only
   split
   · exact ⟨rfl, rfl⟩
-  · have hf := prepareResponder_fields n.cfg n.p via pkt c
-    have hcac : checkAndComplete n.main (n.p.prepareResponder n.cfg via pkt c).1.pindexes
-        (n.p.prepareResponder n.cfg via pkt c).2.1 = some (.existing ex) := by
+  · have hf := prepareResponder_fields n.cfg n.p via pkt c rv
+    have hcac : checkAndComplete n.main (n.p.prepareResponder n.cfg via pkt c rv).1.pindexes
+        (n.p.prepareResponder n.cfg via pkt c rv).2.1 = some (.existing ex) := by
       unfold checkAndComplete
       simp only [hf.1, hf.2.1, hf.2.2, hprim, hnew]
       simp [hold, hresp]
@@ -100,12 +100,12 @@ theorem older_no_replace_after_any_history (cfg : Cfg) (evs : List Ev) (via : UN
 and becomes the primary tunnel of the certificate's first address. -/
 theorem fresh_stage1_recorded (n : Node) (via : UNode) (pkt : Handle) (c : Completed) (rv now : Nat)
     (hok : peerCertOk n.cfg c = true)
-    (hcac : checkAndComplete n.main (n.p.prepareResponder n.cfg via pkt c).1.pindexes
-        (n.p.prepareResponder n.cfg via pkt c).2.1 = none) :
+    (hcac : checkAndComplete n.main (n.p.prepareResponder n.cfg via pkt c rv).1.pindexes
+        (n.p.prepareResponder n.cfg via pkt c rv).2.1 = none) :
     (n.beginHandshake via pkt (some c) rv now).1.main =
-      n.main.addHostInfo (n.p.prepareResponder n.cfg via pkt c).2.1 ∧
-    (n.p.prepareResponder n.cfg via pkt c).2.1.pkt0 = some pkt := by
-  refine ⟨?_, (prepareResponder_fields n.cfg n.p via pkt c).1⟩
+      n.main.addHostInfo (n.p.prepareResponder n.cfg via pkt c rv).2.1 ∧
+    (n.p.prepareResponder n.cfg via pkt c rv).2.1.pkt0 = some pkt := by
+  refine ⟨?_, (prepareResponder_fields n.cfg n.p via pkt c rv).1⟩
   unfold Node.beginHandshake
   simp only [hok, Bool.not_true, Bool.false_eq_true, if_false]
   rw [hcac]
